@@ -3,6 +3,8 @@ package main
 import (
 	"encoding/xml"
 	"strings"
+
+	cf "verifharness/internal/coqfmt"
 )
 
 // Independent reading of a chain of pom.xml files (main pom first, then its local parents) into
@@ -51,12 +53,123 @@ type xPlugin struct {
 }
 
 type xProject struct {
-	Parent   xDep       `xml:"parent"`
-	Props    xProps     `xml:"properties"`
-	Deps     xDeps      `xml:"dependencies"`
-	Mgmt     xMgmt      `xml:"dependencyManagement"`
-	Profiles []xProfile `xml:"profiles>profile"`
-	Plugins  []xPlugin  `xml:"build>pluginManagement>plugins>plugin"`
+	Parent           xDep       `xml:"parent"`
+	Props            xProps     `xml:"properties"`
+	Deps             xDeps      `xml:"dependencies"`
+	Mgmt             xMgmt      `xml:"dependencyManagement"`
+	Profiles         []xProfile `xml:"profiles>profile"`
+	Plugins          []xPlugin  `xml:"build>pluginManagement>plugins>plugin"`
+	UnmanagedPlugins []xPlugin  `xml:"build>plugins>plugin"`
+}
+
+// declaration-level reading of a pom chain, for the Coq model Writers.PomDecl
+
+type dDecl struct {
+	Origin string `json:"origin"`
+	Key    string `json:"key"`
+	Ver    string `json:"ver"`
+	Listed bool   `json:"listed"`
+}
+
+type dProp struct {
+	Origin string `json:"origin"`
+	Name   string `json:"name"`
+	Val    string `json:"val"`
+}
+
+type dPom struct {
+	Path  string  `json:"path"`
+	Decls []dDecl `json:"decls"`
+	Props []dProp `json:"props"`
+}
+
+// readChain lists, pom by pom, every version declaration in the order of buildOriginalRequirements
+// (parent reference, dependencies, dependencyManagement, profiles, pluginManagement plugins) followed by
+// the plugins outside pluginManagement (walked by the writer, not listed by Read), and every property.
+func readChain(files map[string]string, paths []string) ([]dPom, error) {
+	var out []dPom
+	for _, p := range paths {
+		var pr xProject
+		if err := xml.Unmarshal([]byte(files[p]), &pr); err != nil {
+			return nil, err
+		}
+		dp := dPom{Path: p}
+		add := func(origin string, ds []xDep, listed bool) {
+			for _, d := range ds {
+				dp.Decls = append(dp.Decls, dDecl{Origin: origin, Key: mReqKey(tr(d.G)+":"+tr(d.A), tr(d.T), tr(d.C)), Ver: tr(d.V), Listed: listed})
+			}
+		}
+		if tr(pr.Parent.G) != "" && tr(pr.Parent.A) != "" {
+			dp.Decls = append(dp.Decls, dDecl{Origin: "parent", Key: mReqKey(tr(pr.Parent.G)+":"+tr(pr.Parent.A), "pom", ""), Ver: tr(pr.Parent.V), Listed: true})
+		}
+		add("", pr.Deps.Deps, true)
+		add("management", pr.Mgmt.Deps.Deps, true)
+		for _, x := range pr.Props.L {
+			dp.Props = append(dp.Props, dProp{"", x.XMLName.Local, tr(x.Value)})
+		}
+		for _, pf := range pr.Profiles {
+			o := "profile@" + tr(pf.ID)
+			add(o, pf.Deps.Deps, true)
+			add(o+"@management", pf.Mgmt.Deps.Deps, true)
+			for _, x := range pf.Props.L {
+				dp.Props = append(dp.Props, dProp{o, x.XMLName.Local, tr(x.Value)})
+			}
+		}
+		for _, pl := range pr.Plugins {
+			add("plugin@"+tr(pl.G)+":"+tr(pl.A), pl.Deps.Deps, true)
+		}
+		for _, pl := range pr.UnmanagedPlugins {
+			add("plugin@"+tr(pl.G)+":"+tr(pl.A), pl.Deps.Deps, false)
+		}
+		out = append(out, dp)
+	}
+	return out, nil
+}
+
+func coqChain(c []dPom) string {
+	poms := make([]string, len(c))
+	for i, p := range c {
+		ds := make([]string, len(p.Decls))
+		for j, d := range p.Decls {
+			ds[j] = "{| dl_origin := " + cf.Str(d.Origin) + "; dl_key := " + cf.Str(d.Key) + "; dl_ver := " + cf.Str(d.Ver) + "; dl_listed := " + cf.Bool(d.Listed) + " |}"
+		}
+		ps := make([]string, len(p.Props))
+		for j, f := range p.Props {
+			ps[j] = "{| pf_origin := " + cf.Str(f.Origin) + "; pf_name := " + cf.Str(f.Name) + "; pf_val := " + cf.Str(f.Val) + " |}"
+		}
+		dl, pl := "(@nil decl)", "(@nil pdef)"
+		if len(ds) > 0 {
+			dl = cf.List(ds)
+		}
+		if len(ps) > 0 {
+			pl = cf.List(ps)
+		}
+		poms[i] = "{| pm_path := " + cf.Str(p.Path) + "; pm_decls := " + dl + "; pm_props := " + pl + " |}"
+	}
+	if len(poms) == 0 {
+		return "(@nil pom)"
+	}
+	return cf.List(poms)
+}
+
+// sameShape: the declarations of b restricted to those that sit where a's do (added management entries dropped)
+func keepShape(a, b []dPom) []dPom {
+	out := make([]dPom, len(b))
+	for i := range b {
+		out[i] = dPom{Path: b[i].Path, Props: b[i].Props}
+		if i >= len(a) {
+			out[i].Decls = b[i].Decls
+			continue
+		}
+		wi := 0
+		for _, d := range b[i].Decls {
+			if wi < len(a[i].Decls) && d.Origin == a[i].Decls[wi].Origin && d.Key == a[i].Decls[wi].Key {
+				out[i].Decls = append(out[i].Decls, d)
+				wi++
+			}
+		}
+	}
+	return out
 }
 
 type effDecl struct {
